@@ -1,19 +1,20 @@
 import SFV.Lemmas.LoopComb
+import SFV.Gen.StepGuards
 /-! # C04 (loop combinator) — a failed input termination can leave `LoopCombinatorStep.run` reading forever
 
 Property theorems only (transition system in `SFV/Model/LoopComb.lean`, helper lemmas in
-`SFV/Lemmas/LoopComb.lean`). `fixed = false` is the loop as it is, `fixed = true` the repaired loop
+`SFV/Lemmas/LoopComb.lean`). `fixed = false` is the loop as it was before fix 4e89c00, `fixed = true` the repaired loop (the current source)
 (`fixes/C04-loop-combinator-failed-input.patch`). A schedule is the order in which the outstanding reads return. -/
 namespace SFV.C04
 open SFV.LoopComb
 
-/-! ## A. The loop as it is -/
+/-! ## A. Regression guards — the loop as it was BEFORE fix 4e89c00 (`fixed = false`, the OLD definition) -/
 
-/-- **Deadlock witness (code as it is).** Two input ports; port 0 delivers one data token and terminates
+/-- **Regression guard — false before fix 4e89c00 (old definition).** Deadlock witness: two input ports; port 0 delivers one data token and terminates
 COMPLETED, port 1 terminates FAILED (or CANCELLED). Both streams are well formed. Under the read orders `[0, 1, 0]` and
 `[1, 0, 0]` every producer has delivered everything, yet the loop has not been left: a read of port 0 is
 outstanding (its tag is still in the iteration checklist) and nothing will ever arrive. -/
-theorem loop_failed_input_deadlock_witness :
+theorem loop_failed_input_deadlock_before_fix_4e89c00 :
     ∃ (streams : List (List Tok)) (s : St),
       (∀ l ∈ streams, wellFormedStream l = true) ∧ (∀ l ∈ streams, hasTerm l = true) ∧
       run false (initSt streams) [0, 1, 0] = some s ∧ run false (initSt streams) [1, 0, 0] = some s ∧
@@ -23,22 +24,22 @@ theorem loop_failed_input_deadlock_witness :
                { stream := [], pending := false, terminated := true, checklist := [] }], failed := false },
    by decide⟩
 
-/-- **A deadlock of the loop as it is never resolves.** Once a read is outstanding on an exhausted port, every
+/-- **(old definition, before fix 4e89c00) A deadlock of the unrepaired loop never resolves.** Once a read is outstanding on an exhausted port, every
 continuation of the run is still deadlocked and has not left the loop, and that read itself never returns. -/
-theorem loop_asis_deadlock_is_permanent {s s' : St} (sched : List Nat) (hd : deadlocked s = true)
+theorem loop_deadlock_is_permanent_before_fix_4e89c00 {s s' : St} (sched : List Nat) (hd : deadlocked s = true)
     (hr : run false s sched = some s') : deadlocked s' = true ∧ done s' = false :=
   ⟨deadlocked_run_asis sched hd hr, not_done_of_deadlocked (deadlocked_run_asis sched hd hr)⟩
 
-/-- **When exactly the loop as it is waits forever.** With terminating producers, a reachable state of the loop
-as it is has a read outstanding on an exhausted port exactly when some exhausted, terminated port still has a tag
+/-- **(old definition, before fix 4e89c00) When exactly the unrepaired loop waits forever.** With terminating producers, a reachable state of the loop
+(`fixed = false`) has a read outstanding on an exhausted port exactly when some exhausted, terminated port still has a tag
 in its iteration checklist — nothing but the port's own iteration termination tokens (or its own
 non-COMPLETED termination) ever removes it, in particular not the FAILED termination of another port. -/
-theorem loop_asis_deadlock_iff {streams : List (List Tok)} (hw : ∀ l ∈ streams, hasTerm l = true) {s : St}
+theorem loop_deadlock_iff_before_fix_4e89c00 {streams : List (List Tok)} (hw : ∀ l ∈ streams, hasTerm l = true) {s : St}
     (hr : Reachable false streams s) :
     deadlocked s = true ↔ ∃ p ∈ s.ports, p.stream = [] ∧ p.terminated = true ∧ p.checklist ≠ [] :=
   invA_deadlocked_iff (invA_reachable hw hr)
 
-/-! ## B. The repaired loop -/
+/-! ## B. The repaired loop (`fixed = true`) -/
 
 /-- **No deadlock after a failure (repaired loop).** If every port's stream contains a termination token
 (every port has a producer that terminates), then in every reachable state in which a FAILED termination
@@ -62,6 +63,28 @@ theorem loop_fixed_progress_after_failure {streams : List (List Tok)}
     (hw : ∀ l ∈ streams, hasTerm l = true) {s : St} (hr : Reachable true streams s)
     (hf : s.failed = true) (hd : done s = false) : ∃ i s', step true s i = some s' :=
   inv_progress (inv_reachable hw hr) hf hd
+
+/-! ## B'. The loop of the current source
+
+`Gen.loopStopsAfterFailure` is extracted from `LoopCombinatorStep.run` on every run (`true` since fix 4e89c00): these
+theorems are the full-strength statements about the code as it is now and stop compiling if the source loses the repair. -/
+
+/-- **A failed loop input never dead-locks the loop combinator** (code as it is now): if every input port has a
+producer that terminates, then after a FAILED / CANCELLED termination no read is outstanding on an exhausted port. -/
+theorem loop_no_deadlock_after_failure {streams : List (List Tok)}
+    (hw : ∀ l ∈ streams, hasTerm l = true) {s : St} (hr : Reachable Gen.loopStopsAfterFailure streams s)
+    (hf : s.failed = true) : deadlocked s = false := by
+  have hg : Gen.loopStopsAfterFailure = true := rfl
+  rw [hg] at hr
+  exact inv_no_deadlock (inv_reachable hw hr) hf
+
+/-- **… and the step leaves its loop** (hence terminates, status FAILED) once every producer has delivered everything -/
+theorem loop_done_when_exhausted {streams : List (List Tok)}
+    (hw : ∀ l ∈ streams, hasTerm l = true) {s : St} (hr : Reachable Gen.loopStopsAfterFailure streams s)
+    (hf : s.failed = true) (he : ∀ p ∈ s.ports, p.stream = []) : done s = true := by
+  have hg : Gen.loopStopsAfterFailure = true := rfl
+  rw [hg] at hr
+  exact inv_done (inv_reachable hw hr) hf he
 
 /-- every step (of either version) reads exactly one token: runs are bounded by the number of tokens -/
 theorem loop_run_bounded {fixed : Bool} {s s' : St} (sched : List Nat) (hr : run fixed s sched = some s') :
